@@ -5,30 +5,30 @@ From AV Require Import Base UnixLoop.
 Ltac splits := repeat match goal with |- _ /\ _ => split end.
 Ltac easy_parts := splits; try (intros; cbn [length] in *; first [discriminate | lia | congruence | assumption | reflexivity]); auto.
 
-Lemma send_loop_spec script : forall closing view,
-  let '(res, h, c, w, cl) := send_loop closing view script in
+Lemma send_loop_spec g script : forall closing shut view,
+  let '(res, h, c, w, cl, sh, ir) := send_loopv g closing shut view script in
   (exists rest, view = h ++ rest) /\ (res = UDone -> h = view) /\ c <= length script /\ w <= c /\
   (res = UClosed -> cl = true) /\ (res = UBroken -> cl = false) /\ (closing = true -> cl = true).
 Proof.
-  induction script as [|a r IH]; intros closing view; destruct view as [|x v].
+  induction script as [|a r IH]; intros closing shut view; destruct view as [|x v].
   - cbn. split; [exists []; reflexivity|]. easy_parts.
   - cbn. split; [exists (x :: v); reflexivity|]. easy_parts.
   - cbn. split; [exists []; reflexivity|]. easy_parts.
-  - cbn [send_loop]. destruct a as [n|w|].
-    + specialize (IH closing (skipn n (x :: v))).
-      destruct (send_loop closing (skipn n (x :: v)) r) as [[[[res h] c] w] cl].
+  - cbn [send_loopv]. destruct a as [n|es w|].
+    + specialize (IH closing shut (skipn n (x :: v))).
+      destruct (send_loopv g closing shut (skipn n (x :: v)) r) as [[[[[[res h] c] w] cl] sh] ir].
       destruct IH as ((rest & E) & D & C & W & K1 & K2 & K3).
       split; [exists rest; rewrite <- app_assoc, <- E; symmetry; apply firstn_skipn|].
       split; [intros Hd; rewrite (D Hd); apply firstn_skipn|].
       easy_parts.
-    + destruct w.
-      * specialize (IH closing (x :: v)).
-        destruct (send_loop closing (x :: v) r) as [[[[res h] c] w] cl].
+    + destruct (intrude_all g true false shut es) as [xs sh1]. destruct w.
+      * specialize (IH closing sh1 (x :: v)).
+        destruct (send_loopv g closing sh1 (x :: v) r) as [[[[[[res h] c] w] cl] sh] ir].
         destruct IH as (E & D & C & W & K1 & K2 & K3).
         easy_parts.
       * split; [exists (x :: v); reflexivity|]. easy_parts.
-      * specialize (IH true (x :: v)).
-        destruct (send_loop true (x :: v) r) as [[[[res h] c] w] cl].
+      * specialize (IH true sh1 (x :: v)).
+        destruct (send_loopv g true sh1 (x :: v) r) as [[[[[[res h] c] w] cl] sh] ir].
         destruct IH as (E & D & C & W & K1 & K2 & K3).
         easy_parts.
     + split; [exists (x :: v); reflexivity|]. destruct closing; easy_parts.
@@ -40,10 +40,10 @@ Theorem unix_send_loop_complete cancel0 busy closing0 item script :
   let o := unix_send cancel0 busy closing0 item script in
   (exists rest, item = u_handed o ++ rest) /\ (u_res o = UDone -> u_handed o = item).
 Proof.
-  unfold unix_send. destruct cancel0; [cbn; split; [exists item; reflexivity|discriminate]|].
+  unfold unix_send, unix_sendv. destruct cancel0; [cbn; split; [exists item; reflexivity|discriminate]|].
   destruct busy; [cbn; split; [exists item; reflexivity|discriminate]|].
-  pose proof (send_loop_spec script closing0 item) as H.
-  destruct (send_loop closing0 item script) as [[[[res h] c] w] cl]. cbn.
+  pose proof (send_loop_spec true script closing0 false item) as H.
+  destruct (send_loopv true closing0 false item script) as [[[[[[res h] c] w] cl] sh] ir]. cbn.
   destruct H as (E & D & _). auto.
 Qed.
 
@@ -52,18 +52,18 @@ Qed.
 Definition all_accept (script : list sresp) : Prop :=
   forall a, In a script -> exists n, a = SOk n /\ 1 <= n.
 
-Lemma send_loop_terminates script : forall closing view,
+Lemma send_loop_terminates g script : forall closing shut view,
   all_accept script -> length view <= length script ->
-  let '(res, _, _, _, _) := send_loop closing view script in res = UDone.
+  let '(res, _, _, _, _, _, _) := send_loopv g closing shut view script in res = UDone.
 Proof.
-  induction script as [|a r IH]; intros closing view Hc Hl; destruct view as [|x v]; cbn; auto.
+  induction script as [|a r IH]; intros closing shut view Hc Hl; destruct view as [|x v]; cbn; auto.
   - cbn in Hl. lia.
   - destruct (Hc a (or_introl eq_refl)) as (n & -> & Hn).
     assert (Hr : all_accept r) by (intros b Hb; apply Hc; right; exact Hb).
     assert (L : length (skipn n (x :: v)) <= length r).
     { rewrite skipn_length. cbn [length] in *. lia. }
-    specialize (IH closing (skipn n (x :: v)) Hr L).
-    destruct (send_loop closing (skipn n (x :: v)) r) as [[[[res h] c] w] cl]. exact IH.
+    specialize (IH closing shut (skipn n (x :: v)) Hr L).
+    destruct (send_loopv g closing shut (skipn n (x :: v)) r) as [[[[[[res h] c] w] cl] sh] ir]. exact IH.
 Qed.
 
 Theorem unix_send_terminates_under_contract closing0 item script :
@@ -72,32 +72,32 @@ Theorem unix_send_terminates_under_contract closing0 item script :
   u_handed (unix_send false false closing0 item script) = item.
 Proof.
   intros Hc Hl.
-  pose proof (send_loop_terminates script closing0 item Hc Hl) as T.
+  pose proof (send_loop_terminates true script closing0 false item Hc Hl) as T.
   pose proof (unix_send_loop_complete false false closing0 item script) as [_ C].
-  unfold unix_send in *. cbn [negb] in *.
-  destruct (send_loop closing0 item script) as [[[[res h] c] w] cl]. cbn in *. subst res. auto.
+  unfold unix_send, unix_sendv in *. cbn [negb] in *.
+  destruct (send_loopv true closing0 false item script) as [[[[[[res h] c] w] cl] sh] ir]. cbn in *. subst res. auto.
 Qed.
 
 (* ---------- receive ---------- *)
-Lemma recv_loop_spec script : forall closing,
-  let '(res, c, w, cl) := recv_loop closing script in
+Lemma recv_loop_spec g script : forall closing shut,
+  let '(res, c, w, cl, sh, ir) := recv_loopv g closing shut script in
   (forall d, res = UData d -> d <> [] /\ In (KData d) script) /\
   (res = UEof -> In (KData []) script) /\ c <= length script /\
   (res = UClosed -> cl = true) /\ (res = UBroken -> cl = false) /\ (closing = true -> cl = true).
 Proof.
-  induction script as [|a r IH]; intros closing; cbn [recv_loop].
+  induction script as [|a r IH]; intros closing shut; cbn [recv_loopv].
   - split; [intros d H; discriminate|]. easy_parts.
-  - destruct a as [d|w|].
+  - destruct a as [d|es w|].
     + destruct d as [|b d].
       * split; [intros d H; discriminate|]. split; [intros _; now left|]. easy_parts.
       * split; [intros d' H; injection H as <-; split; [discriminate|now left]|]. easy_parts.
-    + destruct w.
-      * specialize (IH closing). destruct (recv_loop closing r) as [[[res c] w] cl].
+    + destruct (intrude_all g false true shut es) as [xs sh1]. destruct w.
+      * specialize (IH closing sh1). destruct (recv_loopv g closing sh1 r) as [[[[[res c] w] cl] sh] ir].
         destruct IH as (A & B & C & K1 & K2 & K3).
         split; [intros d H; destruct (A d H); split; [assumption|right; assumption]|].
         split; [intros E; right; auto|]. easy_parts.
       * split; [intros d H; discriminate|]. easy_parts.
-      * specialize (IH true). destruct (recv_loop true r) as [[[res c] w] cl].
+      * specialize (IH true sh1). destruct (recv_loopv g true sh1 r) as [[[[[res c] w] cl] sh] ir].
         destruct IH as (A & B & C & K1 & K2 & K3).
         split; [intros d H; destruct (A d H); split; [assumption|right; assumption]|].
         split; [intros E; right; auto|]. easy_parts.
@@ -114,12 +114,12 @@ Theorem unix_recv_bounds cancel0 busy closing0 mx script :
   (u_res o = UEof -> In (KData []) script) /\
   u_handed o = [].
 Proof.
-  unfold unix_recv. destruct (Nat.eqb_spec mx 0).
+  unfold unix_recv, unix_recvv. destruct (Nat.eqb_spec mx 0).
   { cbn. repeat split; auto; discriminate. }
   destruct cancel0; [cbn; repeat split; auto; discriminate|].
   destruct busy; [cbn; repeat split; auto; discriminate|].
-  pose proof (recv_loop_spec script closing0) as H.
-  destruct (recv_loop closing0 script) as [[[res c] w] cl]. cbn.
+  pose proof (recv_loop_spec true script closing0 false) as H.
+  destruct (recv_loopv true closing0 false script) as [[[[[res c] w] cl] sh] ir]. cbn.
   destruct H as (A & B & _). split; [|auto].
   intros d Hd. destruct (A d Hd) as [Hn Hi].
   split; [lia|]. split; [destruct d; [contradiction|cbn; lia]|]. split; [exact Hi|].
@@ -134,17 +134,18 @@ Theorem unix_guard_rejects_concurrent closing0 item mx script rscript :
   (u_res o = UBusy /\ u_handed o = [] /\ u_calls o = 0 /\ u_guard o = true) /\
   (u_res o' = UBusy /\ u_calls o' = 0 /\ u_guard o' = true).
 Proof.
-  intros Hm. unfold unix_send, unix_recv. destruct (Nat.eqb_spec mx 0); [lia|]. cbn. auto 10.
+  intros Hm. unfold unix_send, unix_recv, unix_sendv, unix_recvv. destruct (Nat.eqb_spec mx 0); [lia|]. cbn. auto 10.
 Qed.
 
 Theorem unix_guard_released cancel0 closing0 item mx script rscript :
   u_guard (unix_send cancel0 false closing0 item script) = false /\
   u_guard (unix_recv cancel0 false closing0 mx rscript) = false.
 Proof.
-  unfold unix_send, unix_recv. split.
-  - destruct cancel0; [reflexivity|]. destruct (send_loop closing0 item script) as [[[[res h] c] w] cl]. reflexivity.
+  unfold unix_send, unix_recv, unix_sendv, unix_recvv. split.
+  - destruct cancel0; [reflexivity|].
+    destruct (send_loopv true closing0 false item script) as [[[[[[res h] c] w] cl] sh] ir]. reflexivity.
   - destruct (Nat.eqb mx 0); [reflexivity|]. destruct cancel0; [reflexivity|].
-    destruct (recv_loop closing0 rscript) as [[[res c] w] cl]. reflexivity.
+    destruct (recv_loopv true closing0 false rscript) as [[[[[res c] w] cl] sh] ir]. reflexivity.
 Qed.
 
 (* ClosedResourceError exactly when the stream was closed locally (before or during the call),
@@ -155,29 +156,175 @@ Theorem unix_closed_errors cancel0 busy closing0 item mx script rscript :
   (u_res o = UClosed -> u_closing o = true) /\ (u_res o = UBroken -> u_closing o = false) /\
   (u_res o' = UClosed -> u_closing o' = true) /\ (u_res o' = UBroken -> u_closing o' = false).
 Proof.
-  unfold unix_send, unix_recv.
-  pose proof (send_loop_spec script closing0 item) as S.
-  pose proof (recv_loop_spec rscript closing0) as R.
-  destruct (send_loop closing0 item script) as [[[[res h] c] w] cl].
-  destruct (recv_loop closing0 rscript) as [[[res' c'] w'] cl'].
+  unfold unix_send, unix_recv, unix_sendv, unix_recvv.
+  pose proof (send_loop_spec true script closing0 false item) as S.
+  pose proof (recv_loop_spec true rscript closing0 false) as R.
+  destruct (send_loopv true closing0 false item script) as [[[[[[res h] c] w] cl] sh] ir].
+  destruct (recv_loopv true closing0 false rscript) as [[[[[res' c'] w'] cl'] sh'] ir'].
   destruct S as (_ & _ & _ & _ & S1 & S2 & _). destruct R as (_ & _ & _ & R1 & R2 & _).
   destruct (Nat.eqb mx 0); destruct cancel0; destruct busy; cbn; repeat split; auto; discriminate.
+Qed.
+
+(* ---------- other tasks using the same direction while a call is parked ---------- *)
+
+(* every same-direction entry point is refused and changes nothing: send(), send_fds() AND send_eof() while a
+   send is in progress (sg = true); receive() and receive_fds() while a receive is in progress (rg = true) *)
+Theorem unix_entry_points_refused :
+  (forall rg shut e, e = ESend \/ e = ESendFds \/ e = ESendEof -> intrude true true rg shut e = (UBusy, shut)) /\
+  (forall sg shut e, e = EReceive \/ e = EReceiveFds -> intrude true sg true shut e = (UBusy, shut)).
+Proof.
+  split.
+  - intros rg shut e [-> | [-> | ->]]; reflexivity.
+  - intros sg shut e [-> | ->]; unfold intrude; cbn; rewrite ?Bool.orb_true_r; reflexivity.
+Qed.
+
+Lemma intrude_all_busy g sg rg shut es :
+  (forall e, In e es -> orb (andb (uses_send_guard g e) sg) (andb (uses_recv_guard e) rg) = true) ->
+  intrude_all g sg rg shut es = (map (fun _ => UBusy) es, shut).
+Proof.
+  induction es as [|e r IH]; intros H; cbn [intrude_all map]; [reflexivity|].
+  unfold intrude. rewrite (H e (or_introl eq_refl)).
+  rewrite IH by (intros x Hx; apply H; right; exact Hx). reflexivity.
+Qed.
+
+Definition send_intruders_same_dir (script : list sresp) : Prop :=
+  forall es w e, In (SBlock es w) script -> In e es -> uses_send_guard true e = true.
+Definition recv_intruders_same_dir (script : list rresp) : Prop :=
+  forall es w e, In (KBlock es w) script -> In e es -> uses_recv_guard e = true.
+
+Lemma send_loop_untouched script : forall closing shut view,
+  send_intruders_same_dir script ->
+  let '(res, h, c, w, cl, sh, ir) := send_loopv true closing shut view script in
+  let '(res', h', c', w', cl', sh', ir') := send_loopv true closing shut view (map strip_s script) in
+  res = res' /\ h = h' /\ c = c' /\ w = w' /\ cl = cl' /\ sh = shut /\ sh' = shut /\
+  Forall (fun r => r = UBusy) ir /\ ir' = [].
+Proof.
+  induction script as [|a r IH]; intros closing shut view Hs; destruct view as [|x v];
+    try (cbn; auto 12; fail).
+  assert (Hr : send_intruders_same_dir r).
+  { intros es w e H1 H2. apply (Hs es w e); [right; exact H1|exact H2]. }
+  cbn [send_loopv map]. destruct a as [n|es wk|]; cbn [strip_s].
+  - specialize (IH closing shut (skipn n (x :: v)) Hr).
+    destruct (send_loopv true closing shut (skipn n (x :: v)) r) as [[[[[[res h] c] w] cl] sh] ir].
+    destruct (send_loopv true closing shut (skipn n (x :: v)) (map strip_s r)) as [[[[[[res' h'] c'] w'] cl'] sh'] ir'].
+    destruct IH as (A & B & C & D & E & F & G & H & I). subst. auto 12.
+  - rewrite (intrude_all_busy true true false shut es).
+    2:{ intros e He. rewrite (Hs es wk e (or_introl eq_refl) He). reflexivity. }
+    cbn [intrude_all].
+    assert (FB : Forall (fun r0 : ures => r0 = UBusy) (map (fun _ : entry => UBusy) es)).
+    { apply Forall_forall. intros y Hy. apply in_map_iff in Hy. destruct Hy as (z & <- & _). reflexivity. }
+    destruct wk.
+    + specialize (IH closing shut (x :: v) Hr).
+      destruct (send_loopv true closing shut (x :: v) r) as [[[[[[res h] c] w] cl] sh] ir].
+      destruct (send_loopv true closing shut (x :: v) (map strip_s r)) as [[[[[[res' h'] c'] w'] cl'] sh'] ir'].
+      destruct IH as (A & B & C & D & E & F & G & H & I). subst.
+      refine (conj eq_refl (conj eq_refl (conj eq_refl (conj eq_refl (conj eq_refl (conj eq_refl (conj eq_refl (conj _ eq_refl)))))))).
+      apply Forall_app. auto.
+    + auto 12.
+    + specialize (IH true shut (x :: v) Hr).
+      destruct (send_loopv true true shut (x :: v) r) as [[[[[[res h] c] w] cl] sh] ir].
+      destruct (send_loopv true true shut (x :: v) (map strip_s r)) as [[[[[[res' h'] c'] w'] cl'] sh'] ir'].
+      destruct IH as (A & B & C & D & E & F & G & H & I). subst.
+      refine (conj eq_refl (conj eq_refl (conj eq_refl (conj eq_refl (conj eq_refl (conj eq_refl (conj eq_refl (conj _ eq_refl)))))))).
+      apply Forall_app. auto.
+  - auto 12.
+Qed.
+
+(* whatever same-direction entry points other tasks invoke while send() is parked: each is refused with
+   BusyResourceError, the socket is not shut down, and the parked call proceeds exactly as if nobody had tried *)
+Theorem unix_parked_send_untouched cancel0 busy closing0 item script :
+  send_intruders_same_dir script ->
+  let o := unix_send cancel0 busy closing0 item script in
+  let o' := unix_send cancel0 busy closing0 item (map strip_s script) in
+  u_res o = u_res o' /\ u_handed o = u_handed o' /\ u_calls o = u_calls o' /\ u_waits o = u_waits o' /\
+  u_closing o = u_closing o' /\ u_guard o = u_guard o' /\ u_shut o = false /\
+  Forall (fun r => r = UBusy) (u_intr o).
+Proof.
+  intros Hs. unfold unix_send, unix_sendv.
+  destruct cancel0; [cbn; auto 12|]. destruct busy; [cbn; auto 12|].
+  pose proof (send_loop_untouched script closing0 false item Hs) as H.
+  destruct (send_loopv true closing0 false item script) as [[[[[[res h] c] w] cl] sh] ir].
+  destruct (send_loopv true closing0 false item (map strip_s script)) as [[[[[[res' h'] c'] w'] cl'] sh'] ir'].
+  destruct H as (A & B & C & D & E & F & G & H & I). subst. cbn. auto 12.
+Qed.
+
+Lemma recv_loop_untouched script : forall closing shut,
+  recv_intruders_same_dir script ->
+  let '(res, c, w, cl, sh, ir) := recv_loopv true closing shut script in
+  let '(res', c', w', cl', sh', ir') := recv_loopv true closing shut (map strip_r script) in
+  res = res' /\ c = c' /\ w = w' /\ cl = cl' /\ sh = shut /\ Forall (fun r => r = UBusy) ir.
+Proof.
+  induction script as [|a r IH]; intros closing shut Hs; [cbn; auto 12|].
+  assert (Hr : recv_intruders_same_dir r).
+  { intros es w e H1 H2. apply (Hs es w e); [right; exact H1|exact H2]. }
+  cbn [recv_loopv map]. destruct a as [d|es wk|]; cbn [strip_r].
+  - auto 12.
+  - rewrite (intrude_all_busy true false true shut es).
+    2:{ intros e He. rewrite (Hs es wk e (or_introl eq_refl) He). apply Bool.orb_true_r. }
+    cbn [intrude_all].
+    assert (FB : Forall (fun r0 : ures => r0 = UBusy) (map (fun _ : entry => UBusy) es)).
+    { apply Forall_forall. intros y Hy. apply in_map_iff in Hy. destruct Hy as (z & <- & _). reflexivity. }
+    destruct wk.
+    + specialize (IH closing shut Hr).
+      destruct (recv_loopv true closing shut r) as [[[[[res c] w] cl] sh] ir].
+      destruct (recv_loopv true closing shut (map strip_r r)) as [[[[[res' c'] w'] cl'] sh'] ir'].
+      destruct IH as (A & B & C & D & E & F). subst.
+      refine (conj eq_refl (conj eq_refl (conj eq_refl (conj eq_refl (conj eq_refl _))))).
+      apply Forall_app. auto.
+    + auto 12.
+    + specialize (IH true shut Hr).
+      destruct (recv_loopv true true shut r) as [[[[[res c] w] cl] sh] ir].
+      destruct (recv_loopv true true shut (map strip_r r)) as [[[[[res' c'] w'] cl'] sh'] ir'].
+      destruct IH as (A & B & C & D & E & F). subst.
+      refine (conj eq_refl (conj eq_refl (conj eq_refl (conj eq_refl (conj eq_refl _))))).
+      apply Forall_app. auto.
+  - auto 12.
+Qed.
+
+Theorem unix_parked_recv_untouched cancel0 busy closing0 mx script :
+  recv_intruders_same_dir script ->
+  let o := unix_recv cancel0 busy closing0 mx script in
+  let o' := unix_recv cancel0 busy closing0 mx (map strip_r script) in
+  u_res o = u_res o' /\ u_calls o = u_calls o' /\ u_waits o = u_waits o' /\
+  u_closing o = u_closing o' /\ u_guard o = u_guard o' /\ u_shut o = false /\
+  Forall (fun r => r = UBusy) (u_intr o).
+Proof.
+  intros Hs. unfold unix_recv, unix_recvv.
+  destruct (Nat.eqb mx 0); [cbn; auto 12|].
+  destruct cancel0; [cbn; auto 12|]. destruct busy; [cbn; auto 12|].
+  pose proof (recv_loop_untouched script closing0 false Hs) as H.
+  destruct (recv_loopv true closing0 false script) as [[[[[res c] w] cl] sh] ir].
+  destruct (recv_loopv true closing0 false (map strip_r script)) as [[[[[res' c'] w'] cl'] sh'] ir'].
+  destruct H as (A & B & C & D & E & F). subst. cbn. auto 12.
+Qed.
+
+(* the variant in which send_eof() does not take the send guard (seeded change C18/d) violates it: the EOF of a
+   second task goes through in the middle of the message of the first *)
+Theorem unix_send_eof_unguarded_refuted :
+  exists item script,
+    let o := unix_sendv false false false false item script in
+    u_intr o = [UAccepted] /\ u_shut o = true /\ u_handed o <> item /\ u_res o = UBroken /\
+    let o' := unix_send false false false item script in
+    u_intr o' = [UBusy] /\ u_shut o' = false.
+Proof.
+  exists [1; 2; 3; 4]%Z, [SOk 2; SBlock [ESendEof] WReady; SErr]. vm_compute.
+  refine (conj eq_refl (conj eq_refl (conj _ (conj eq_refl (conj eq_refl eq_refl))))). discriminate.
 Qed.
 
 (* ---------- non-vacuity ---------- *)
 Example ex_unix_send_partial :
   let o := unix_send false false false [1; 2; 3; 4; 5; 6; 7]%Z
-             [SOk 3; SBlock WReady; SOk 1; SBlock WReady; SBlock WReady; SOk 5] in
+             [SOk 3; SBlock [] WReady; SOk 1; SBlock [] WReady; SBlock [] WReady; SOk 5] in
   u_res o = UDone /\ u_handed o = [1; 2; 3; 4; 5; 6; 7]%Z /\ u_calls o = 6 /\ u_waits o = 3.
 Proof. vm_compute. auto. Qed.
 
 Example ex_unix_send_cancelled_midway :
-  let o := unix_send false false false [1; 2; 3; 4]%Z [SOk 3; SBlock WCancel] in
+  let o := unix_send false false false [1; 2; 3; 4]%Z [SOk 3; SBlock [] WCancel] in
   u_res o = UCancelled /\ u_handed o = [1; 2; 3]%Z /\ u_guard o = false.
 Proof. vm_compute. auto. Qed.
 
 Example ex_unix_send_closed_during_wait :
-  let o := unix_send false false false [1; 2]%Z [SOk 1; SBlock WClose; SErr] in
+  let o := unix_send false false false [1; 2]%Z [SOk 1; SBlock [] WClose; SErr] in
   u_res o = UClosed /\ u_handed o = [1]%Z /\ u_closing o = true.
 Proof. vm_compute. auto. Qed.
 
@@ -185,9 +332,33 @@ Example ex_unix_contract_hyp : all_accept [SOk 2; SOk 1; SOk 7].
 Proof. intros a [<-|[<-|[<-|[]]]]; eexists; split; try reflexivity; lia. Qed.
 
 Example ex_unix_recv :
-  u_res (unix_recv false false false 4 [KBlock WReady; KData [9; 8; 7]%Z]) = UData [9; 8; 7]%Z /\
-  u_res (unix_recv false false false 4 [KBlock WReady; KData []]) = UEof /\
-  u_res (unix_recv false false false 4 [KBlock WClose; KErr]) = UClosed /\
+  u_res (unix_recv false false false 4 [KBlock [] WReady; KData [9; 8; 7]%Z]) = UData [9; 8; 7]%Z /\
+  u_res (unix_recv false false false 4 [KBlock [] WReady; KData []]) = UEof /\
+  u_res (unix_recv false false false 4 [KBlock [] WClose; KErr]) = UClosed /\
   u_res (unix_recv false false false 4 [KErr]) = UBroken /\
   u_res (unix_recv false false false 0 []) = UValueError.
 Proof. vm_compute. auto 10. Qed.
+
+(* a send parked under back-pressure half-way through its message; a second task tries send(), send_eof() and
+   send_fds(): all three are refused, nothing is shut down, the message is completed *)
+Example ex_unix_parked_send_intruders :
+  let script := [SOk 2; SBlock [ESend; ESendEof; ESendFds] WReady; SOk 2] in
+  send_intruders_same_dir script /\
+  let o := unix_send false false false [1; 2; 3; 4]%Z script in
+  u_res o = UDone /\ u_handed o = [1; 2; 3; 4]%Z /\ u_intr o = [UBusy; UBusy; UBusy] /\ u_shut o = false.
+Proof.
+  split.
+  - intros es w e [H|[H|[H|[]]]]; try discriminate. injection H as <- _.
+    intros [<-|[<-|[<-|[]]]]; reflexivity.
+  - vm_compute. auto.
+Qed.
+
+(* with nobody inside send, send_eof() is admitted and shuts the socket down for writing *)
+Example ex_unix_send_eof_when_free :
+  intrude true false false false ESendEof = (UAccepted, true).
+Proof. reflexivity. Qed.
+
+Example ex_unix_codec_park :
+  decode_sscript [0; 2; 11; 38; 0; 2]%Z = [SOk 2; SBlock [ESendEof; ESend; ESendEof] WReady; SOk 2] /\
+  decode_rscript 9 [11; 2; 4; 5; 0; 1; 9]%Z = [KBlock [EReceive; EReceiveFds] WReady; KData [9]%Z].
+Proof. vm_compute. auto. Qed.
